@@ -20,6 +20,7 @@ LEVEL_TEXT = ('static: reciprocal-pair invariant over all writers, symbolic inve
               'Numerics of roundup/mod and float error are not decided.')
 LEVEL_NOTE = 'polynomial normal forms over named fields; no float semantics'
 LEVEL_TEXT_ADD = ' Also: delegation-aware rebase rule, logical-root closure, or-default rule over clock.py.'
+LEVEL_TEXT_ADD += " Rounds e-f: the tempo setter pivots on the position read through the map, never on the scheduler's cached beat; wake-up sites (shared with C05)."
 LEVEL_TEXT = (globals().get('LEVEL_TEXT') or EXPLANATION) + LEVEL_TEXT_ADD
 TECHNIQUE = 'static analysis: symbolic normal forms (Laurent polynomials) + statement-order rules'
 
